@@ -417,7 +417,9 @@ def summarize(world_cls, tier, base_seed, results, wall, violations, known_hit,
         "runs_per_hour": int(n / wall * 3600) if wall > 0 else 0,
         "seeds": {"base": base_seed, "first": base_seed * 1_000_000,
                   "count": n},
-        "simulated_time": {"unit": world_cls.SIM_TIME_UNIT, "total": sim_time},
+        # worlds whose clock is the operation counter do not keep a separate one
+        "simulated_time": {"unit": world_cls.SIM_TIME_UNIT,
+                           "total": steps if world_cls.SIM_TIME_UNIT.startswith("operations") else sim_time},
         "faults_fired": faults,
         "probes": probes,
         "ops": ops,
